@@ -65,7 +65,7 @@ class Report:
             if f.get('undecided'): n = max(n, 1)
             obligations += n; discharged += k; solver_s += sum(o['seconds'] for o in f['obligations'])
             funcs.append({'function': f['function'], 'cfg': f['cfg'], 'sha256': f.get('sha'), 'obligations': n, 'discharged': k,
-                          'undecided': f.get('undecided'), 'bounded_in_D': f.get('bounded_in_D'), 'solver_s': round(sum(o['seconds'] for o in f['obligations']), 2),
+                          'undecided': f.get('undecided'), 'bounded_in_D': f.get('bounded_in_D'), 'wall_s': f.get('wall_s'), 'solver_s': round(sum(o['seconds'] for o in f['obligations']), 2),
                           'failed': [o['name'] for o in f['obligations'] if o['verdict'] != 'unsat']})
         for s in self.structural:
             obligations += 1; discharged += 1 if s['verdict'] == 'holds' else 0
